@@ -1062,10 +1062,6 @@ def _pf(prop, ident, cls, witness, text):
 
 
 PROPOSED_FINDINGS = [
-    _pf("C17", "KF-C17-trie-ndel-prefix", "K_C17_trie_ndel_prefix", "corpus/C17/trie-d84-ndel-prefix-match.ops",
-        "D84: trie_notify_del looks the key up without exact match: qb_map_notify_del with a key that only names a proper "
-        "prefix of a key carrying notifiers (ending inside that node's segment) returns 0 instead of -ENOENT and removes the "
-        "other key's notifiers, whose later events are then not delivered (repair: fixes/D84-trie-notify-del-exact.patch)"),
     _pf("C18", "KF-C18-sl-takeover", "K_C18_sl", "corpus/C18/sl-d16-shared-forward-array.ops",
         "D16: skiplist_rm frees a forward array that a removed-but-referenced node still shares (takeover-and-repoint "
         "passes the array to the predecessor, the next removal next to it frees it): heap-use-after-free in "
